@@ -8,6 +8,7 @@ from ..cfg import always_raises
 from ..core import AnalysisError, FunctionInfo, calls_in, call_name, dotted, unparse, walk_no_nested
 from ..facts import assign_facts, possible_values, return_facts, show
 from ..match import canon, if_chain, returns_of
+from ..match import canonical_statements
 from ..report import Ctx
 
 LEVEL = "other"
@@ -140,9 +141,8 @@ def r2_replay_agreement(ctx: Ctx) -> None:
             ex = [unparse(k.value) for k in c.keywords if k.arg == "exports"] + [unparse(a) for a in c.args]
             ctx.check(ex == ["True"], "PopScopeNode.pc_after:exports", "named-scope exports are made during label resolution, before emission reads them")
     un = repo.func(SYMBOLS, "Resolver.use_next_scope")
-    body = [unparse(s) for s in un.node.body]
-    ctx.check(body == ["self.last_used_scope += 1", "self.current_scope = self.scopes[self.last_used_scope]"], "Resolver.use_next_scope",
-              f"advances the replay cursor by one and enters that scope; found {body}")
+    body = canonical_statements(un.node)
+    ctx.check(_advances_and_enters(un.node), "Resolver.use_next_scope", f"advances the replay cursor by one and enters that scope; found {body}")
     kinds = {"append_scope": "Scope", "append_named_scope": "NamedScope", "append_internal_scope": "InternalScope"}
     for m, cls in kinds.items():
         fn = repo.func(SYMBOLS, f"Resolver.{m}")
@@ -304,6 +304,50 @@ def r3_lookup_chain(ctx: Ctx) -> None:
     ctx.count("lookup_facts", 7)
 
 
+def _advances_and_enters(fn: ast.FunctionDef) -> bool:
+    """straight-line evaluation over `c` = the cursor on entry: at the end the cursor is c + 1 and current_scope is self.scopes[c + 1]
+    (locals holding the index, `+=` or `= ... + 1`, either order of a hoisted index are all the same computation)"""
+    CUR = "self.last_used_scope"
+    env: dict[str, int | None] = {CUR: 0}  # value - c
+    entered: int | None = None
+    seen_enter = False
+
+    def ev(e: ast.AST) -> int | None:
+        if isinstance(e, ast.Constant) and type(e.value) is int:
+            return None  # absolute numbers are not offsets of c
+        t = unparse(e)
+        if t in env:
+            return env[t]
+        if isinstance(e, ast.BinOp) and isinstance(e.op, (ast.Add, ast.Sub)) and isinstance(e.right, ast.Constant) and type(e.right.value) is int:
+            l = ev(e.left)
+            return None if l is None else (l + e.right.value if isinstance(e.op, ast.Add) else l - e.right.value)
+        if isinstance(e, ast.BinOp) and isinstance(e.op, ast.Add) and isinstance(e.left, ast.Constant) and type(e.left.value) is int:
+            r = ev(e.right)
+            return None if r is None else r + e.left.value
+        return None
+
+    for st in fn.body:
+        if isinstance(st, ast.Expr) and isinstance(st.value, ast.Constant):
+            continue
+        if isinstance(st, ast.AugAssign) and unparse(st.target) in env and isinstance(st.op, ast.Add) and isinstance(st.value, ast.Constant) and type(st.value.value) is int:
+            cur = env[unparse(st.target)]
+            env[unparse(st.target)] = None if cur is None else cur + st.value.value
+        elif isinstance(st, (ast.Assign, ast.AnnAssign)) and getattr(st, "value", None) is not None:
+            tgt = unparse(st.targets[0] if isinstance(st, ast.Assign) else st.target)
+            if tgt == "self.current_scope":
+                v = st.value
+                if not (isinstance(v, ast.Subscript) and unparse(v.value) == "self.scopes") or seen_enter:
+                    return False
+                entered, seen_enter = ev(v.slice), True
+            elif tgt == CUR or (isinstance(st.targets[0] if isinstance(st, ast.Assign) else st.target, ast.Name)):
+                env[tgt] = ev(st.value)
+            else:
+                return False
+        else:
+            return False
+    return seen_enter and entered == 1 and env.get(CUR) == 1
+
+
 def get_table_own_first(gt) -> bool:
     from ..facts import has_cond, value_table
 
@@ -353,7 +397,7 @@ def r4_export(ctx: Ctx) -> None:
         and call_name(dots[0].body[1].value) == "s.accept_run" and _canon_li(li.node, dots[0].body[1].value.args[0]) == first_run
     ctx.check(ok, "lex_identifier:qualified", "an identifier may carry one `.name` segment (scopename.name)")
     al = ctx.repo.func(SYMBOLS, "Scope.add_label")
-    body = [unparse(s) for s in al.node.body]
+    body = canonical_statements(al.node)
     p = al.params()
     ctx.check(body == [f"self.labels[{p[1]}] = {p[2]}.logical_value", f"self.add_symbol({p[1]}, {p[2]}.logical_value)"], "Scope.add_label", "a label is also a symbol with its logical address")
     ctx.count("export_facts", 5)
